@@ -1339,6 +1339,19 @@ pub fn handle_trailer(
         max_decoded <= max_header_list_size as usize && max_decoded <= MAX_TRAILER_BYTES,
         "trailer budget is the min of MAX_HEADER_LIST_SIZE and the carve-out cap"
     );
+    // HTTP/1.1 ends a chunked body with the last-chunk `0` BEFORE the trailer
+    // section (RFC 9112 §7.1), and kawa's H1 converter writes it for a flags
+    // block carrying `end_body`. Without one the trailer lines followed the
+    // last data chunk directly and an HTTP/1.1 peer read them as a chunk-size
+    // line. (The H2 converter emits nothing for this block.)
+    if kawa.body_size == BodySize::Chunked {
+        kawa.push_block(Block::Flags(Flags {
+            end_body: true,
+            end_chunk: false,
+            end_header: false,
+            end_stream: false,
+        }));
+    }
     let decode_status = decoder.decode_with_cb(input, |k, v| {
         if invalid_trailers || budget_exceeded || field_limit_exceeded {
             return;
